@@ -21,6 +21,7 @@ import (
 type Epoch struct {
 	id   int
 	srcs []epochSrc
+	top  string // allocation top when the epoch began
 }
 
 type epochSrc struct {
@@ -79,6 +80,9 @@ func (fe *FuncEnc) epochVar(name, srt string, ep *Epoch) string {
 	var t string
 	if len(ep.srcs) == 0 {
 		t = fe.sc.declareNamed(key, srt)
+		if ep.top != "" {
+			fe.verTop[t] = ep.top
+		}
 	} else {
 		// merged epoch: ite over the source epochs
 		terms := make([]string, len(ep.srcs))
@@ -108,6 +112,7 @@ func (fe *FuncEnc) heapSet(st *State, name, srt, term string) {
 	fe.heapSorts[name] = srt
 	fe.noteWrite(name)
 	st.heap[name] = fe.sc.define(name, srt, term)
+	fe.verTop[st.heap[name]] = st.allocTop
 }
 
 func (fe *FuncEnc) noteWrite(name string) {
@@ -118,6 +123,17 @@ func (fe *FuncEnc) noteWrite(name string) {
 			fe.blockWrites[fe.curBlock] = m
 		}
 		m[name] = true
+		// targeted write (a single cell whose address is an SSA value) or not
+		t := fe.blockTargets[fe.curBlock]
+		if t == nil {
+			t = map[string][]ssa.Value{}
+			fe.blockTargets[fe.curBlock] = t
+		}
+		if fe.curTarget != nil {
+			t[name] = append(t[name], fe.curTarget)
+		} else {
+			t[name] = append(t[name], nil)
+		}
 	}
 }
 
@@ -132,6 +148,7 @@ func (fe *FuncEnc) havocAll(st *State, why string) {
 	st.heap = map[string]string{}
 	st.ep = fe.newEpoch()
 	fe.bumpAllocTop(st)
+	st.ep.top = st.allocTop
 	fe.havocs = append(fe.havocs, why)
 }
 
@@ -268,10 +285,22 @@ func (fe *FuncEnc) merge(sts []*State) *State {
 	}
 	for _, n := range sortedKeys(gn) {
 		var ts []string
-		for _, s := range sts {
-			ts = append(ts, s.ghost[n])
+		srt := fe.ghostSorts[n]
+		if srt == "" {
+			srt = sInt
 		}
-		res.ghost[n] = pick(ts, sInt, "ghost."+n)
+		missing := false
+		for _, s := range sts {
+			t, ok := s.ghost[n]
+			if !ok {
+				missing = true
+			}
+			ts = append(ts, t)
+		}
+		if missing {
+			continue // not defined on every incoming path: out of scope here
+		}
+		res.ghost[n] = pick(ts, srt, "ghost."+n)
 	}
 	return res
 }
@@ -422,6 +451,7 @@ func (fe *FuncEnc) loadAt(st *State, p string, t types.Type) string {
 		return fmt.Sprintf("(|%s| %s)", info.ctor, strings.Join(parts, " "))
 	}
 	h := fe.heapGet(st, fe.eng.memVar(t), arrSort(fe.sorts().sortOf(t)))
+	fe.loadTop = fe.verTop[h]
 	return fmt.Sprintf("(select %s %s)", h, p)
 }
 
@@ -457,6 +487,7 @@ func (fe *FuncEnc) loadField(st *State, p string, t types.Type, i int) string {
 		return fe.loadAt(st, fmt.Sprintf("(hv_sub %s %d)", p, fe.eng.subTag(typeLabel(t), i)), ft)
 	}
 	h := fe.heapGet(st, fe.eng.fieldVar(t, i), arrSort(fe.sorts().sortOf(ft)))
+	fe.loadTop = fe.verTop[h]
 	return fmt.Sprintf("(select %s %s)", h, p)
 }
 
